@@ -91,6 +91,23 @@ def opt_field_switches(body, field):
             continue
         src = sd[3]["place"]
         last = src["p"][-1] if src["p"] else None
+        # `match x.field.as_mut() { Some(t) => .., None => .. }`: as_ref / as_mut / as_deref keep the variant
+        sdv = body.single_def(src["l"]) if not src["p"] else None
+        if sdv and sdv[2] == "call" and strip_generics(sdv[3]["callee"].get("path") or "") in (
+                "core::option::Option::as_mut", "core::option::Option::as_ref", "core::option::Option::as_deref", "core::option::Option::as_deref_mut") and sdv[3]["args"]:
+            rl, rproj = _borrowed_place(body, sdv[3]["args"][0])
+            flds = [x for x in rproj if isinstance(x, dict) and "f" in x]
+            if flds and flds[-1]["f"] == field:
+                none_t = some_t = None
+                for v, tgt in t["targets"]:
+                    if v == 0:
+                        none_t = tgt
+                    elif v == 1:
+                        some_t = tgt
+                if none_t is None:
+                    none_t = t["otherwise"]
+                out.append((b, none_t, some_t))
+            continue
         # follow one level of `&Option` temporaries
         if not (isinstance(last, dict) and last.get("f") == field):
             root = src["l"]
